@@ -156,6 +156,10 @@ func registerNetStubs() {
 	globalModels["github.com/p4lang/p4runtime/go/p4/v1.Update_Type_name"] = func(i *interpreter, g *ssa.Global) value {
 		return &omap{idx: map[string]*ment{}}
 	}
+	// the sentinel a closed socket's Read/ReadFrom returns (compared by identity)
+	globalModels["net.ErrClosed"] = func(i *interpreter, g *ssa.Global) value {
+		return i.opaqueError("use of closed network connection")
+	}
 	globalModels["net.IPv4zero"] = func(i *interpreter, g *ssa.Global) value { return bytesToValue(net.IPv4zero) }
 	globalModels["net.IPv4bcast"] = func(i *interpreter, g *ssa.Global) value { return bytesToValue(net.IPv4bcast) }
 	globalModels["net.IPv6zero"] = func(i *interpreter, g *ssa.Global) value { return bytesToValue(net.IPv6zero) }
